@@ -846,3 +846,48 @@ Proof.
     + apply relabel_same_final_state; auto.
     + destruct Hok as [->|Hok]; [now left | right]. now rewrite no_double_relabel.
 Qed.
+
+(* ------------------------------------------------------------------ adapter histories *)
+Lemma create_covers_lemma fixed ts t n :
+  In t ts ->
+  In n (keys (hel fixed t [] [])) \/ In n (keys (inv_mass_entries t)) ->
+  In n (keys (create_expressions_gen fixed ts)).
+Proof.
+  intros Ht Hn. unfold create_expressions_gen. rewrite create_expressions_fold.
+  apply key_fold_update. right. destruct Hn as [Hn|Hn].
+  - exists (hel fixed t [] []). split; [|exact Hn].
+    unfold dicts_of. apply in_flat_map. exists t. split; [exact Ht | now left].
+  - exists (inv_mass_entries t). split; [|exact Hn].
+    unfold dicts_of. apply in_flat_map. exists t. split; [exact Ht | right; now left].
+Qed.
+
+(* create_expressions observes the registered set and nothing else, and leaves it alone *)
+Lemma hstep_create_lemma fixed s : hstep fixed s HCreate = (s, model_create_gen fixed s).
+Proof. reflexivity. Qed.
+
+Lemma run_history_create_lemma fixed s ops1 ops2 :
+  let s1 := fst (run_history fixed s ops1) in
+  snd (run_history fixed s (ops1 ++ HCreate :: ops2))
+  = snd (run_history fixed s ops1) ++ model_create_gen fixed s1 :: snd (run_history fixed s1 ops2).
+Proof.
+  revert s. induction ops1 as [|o ops1 IH]; intros s; cbn [app run_history].
+  - cbn [hstep fst snd]. destruct (run_history fixed s ops2). reflexivity.
+  - destruct (hstep fixed s o) as [sa r]. specialize (IH sa). cbv zeta in IH.
+    destruct (run_history fixed sa (ops1 ++ HCreate :: ops2)) as [sb rs] eqn:E1.
+    destruct (run_history fixed sa ops1) as [sc rs1] eqn:E2. cbn [fst snd] in *.
+    now rewrite IH.
+Qed.
+
+Lemma register_guard_lemma s e t :
+  register_ok (e :: s) t = true ->
+  tree_of_topo t <> None /\
+  zset_eqb (incoming_ids t) (incoming_ids e) = true /\
+  zset_eqb (outgoing_ids t) (outgoing_ids e) = true.
+Proof.
+  unfold register_ok. destruct (tree_of_topo t); [|discriminate].
+  intros H. apply andb_true_iff in H. split; [discriminate | exact H].
+Qed.
+
+Lemma register_rejected_lemma fixed s t :
+  register_ok s t = false -> fst (hstep fixed s (HRegister t)) = s.
+Proof. intros H. cbn [hstep]. now rewrite H. Qed.
